@@ -2515,6 +2515,7 @@ static void upipe_h264f_prepare_raw(struct upipe *upipe, struct uref *uref)
 static bool upipe_h264f_work_nalu(struct upipe *upipe, struct uref *uref,
                                   struct upump **upump_p)
 {
+    struct upipe_h264f *upipe_h264f = upipe_h264f_from_upipe(upipe);
     uint64_t nal_units = 0;
     uint64_t nal_offset = 0;
     uint64_t nal_size = 0;
@@ -2537,6 +2538,13 @@ static bool upipe_h264f_work_nalu(struct upipe *upipe, struct uref *uref,
             uref_flow_set_random(uref);
         if (h264naltype_is_vcl(nal_type) && vcl_offset == -1)
             vcl_offset = nal_offset;
+    }
+
+    if (!au_slice || upipe_h264f->active_sps == -1 ||
+        upipe_h264f->active_pps == -1) {
+        upipe_warn(upipe, "discarding data without SPS/PPS");
+        uref_free(uref);
+        return true;
     }
 
     UBASE_RETURN(uref_block_set_header_size(uref, vcl_offset))
@@ -2638,6 +2646,13 @@ static bool upipe_h264f_work_length(struct upipe *upipe, struct uref *uref,
         if (nal_offset)
             uref_h26x_set_nal_offset(uref, nal_offset, au_nal_units++);
         nal_offset += length_size + nal_size;
+    }
+
+    if (!au_slice || upipe_h264f->active_sps == -1 ||
+        upipe_h264f->active_pps == -1) {
+        upipe_warn(upipe, "discarding data without SPS/PPS");
+        uref_free(uref);
+        return true;
     }
 
     UBASE_RETURN(uref_block_set_header_size(uref, vcl_offset))
